@@ -9,6 +9,7 @@
 from facts import AnalysisBroken, access_path, strip_casts, unparse, init_rows
 from rules_common import where
 from flow import atom, cmp_parts
+from facts import ASSIGN_OPS as ASSIGN_OPS_
 
 ENC_FIELDS = {"bytecode_append_int": "int", "bytecode_append_uint32": "uint32",
               "bytecode_append_uint64": "uint64", "bytecode_append_string": "string"}
@@ -302,6 +303,41 @@ def run(ctx):
     rep.check(32 + len(names) - 1 < 255, "D3-NUMBERING", "orc/orcopcodes-sys.c", "one-byte-opcodes",
               "highest opcode byte is %d < 255 (decoder reads it with the escape-aware get_int)" % (31 + len(names)),
               "%d opcodes no longer fit below the 255 escape byte" % len(names))
+
+    # ---- D2c: the constructors the decoder goes through store size and alignment unchanged ------------
+    # The decoder rebuilds arrays with orc_program_add_{source,destination}_full (program, size, name, type, alignment).
+    # What the encoder wrote must come back: the stored size is the size parameter; the stored alignment is the alignment
+    # parameter, except for the documented default (alignment 0 -> size), decided by finite evaluation of the guard.
+    from exprval import admitted as _adm
+    from flow import Facts as _F
+    for ctor in ("orc_program_add_source_full", "orc_program_add_destination_full"):
+        g = db.func(ctor, "orcprogram")
+        rep.saw(g)
+        pn = [p_["name"] for p_ in g.params]
+        if len(pn) != 5:
+            raise AnalysisBroken("%s: expected 5 parameters" % ctor)
+        SZ, AL = pn[1], pn[4]
+        fcg = _F(g)
+        for field, par in (("size", SZ), ("alignment", AL)):
+            sts = [n for n in g.walk() if n.k == "BinaryOperator" and n.op == "=" and strip_casts(n.c[0]).k == "MemberExpr" and strip_casts(n.c[0]).name == field]
+            if len(sts) != 1:
+                raise AnalysisBroken("%s: expected one store to .%s" % (ctor, field))
+            ok = unparse(strip_casts(sts[0].c[1])) == par
+            redefs = [n for n in g.walk() if n.k in ("BinaryOperator", "CompoundAssignOperator") and n.op in ASSIGN_OPS_ and access_path(n.c[0]) == par]
+            bad = []
+            for r_ in redefs:
+                if field == "alignment" and r_.op == "=" and unparse(strip_casts(r_.c[1])) == SZ:
+                    got, rel = _adm(fcg.conds(r_), (AL, SZ), (0, 1, 2, 4, 8, 16))
+                    want = {(a_, s_) for a_ in (0, 1, 2, 4, 8, 16) for s_ in (0, 1, 2, 4, 8, 16) if a_ == 0}
+                    if got != want:
+                        ex = sorted(got - want)[:1] or sorted(want - got)[:1]
+                        bad.append("`%s` under %s (e.g. alignment=%s size=%s)" % (unparse(r_), [unparse(x[0]) for x in rel], ex[0][0], ex[0][1]))
+                else:
+                    bad.append("`%s`" % unparse(r_))
+            rep.check(ok and not bad, "D2-FIELD-FIDELITY", where(g), "%s.%s" % (ctor.replace("orc_program_add_", ""), field),
+                      "the decoded %s is stored as given%s" % (field, " (0 selects the element size)" if field == "alignment" else ""),
+                      "%s does not store the %s it is given: %s -- an array whose %s was serialised comes back from the bytecode with a different one" %
+                      (ctor, field, "; ".join(bad) if bad else "stored expression is `%s`" % unparse(sts[0].c[1]), field), line=sts[0].line)
 
     # ---- D4 integer codecs ---------------------------------------------------
     def shifts_enc(fname):
